@@ -155,9 +155,18 @@ func (w *gwWorld) sync() bool {
 	pending := len(w.socks)
 	done := make([]bool, len(w.socks))
 	deadline := time.After(5 * time.Second)
+	if gwDegraded {
+		deadline = time.After(300 * time.Millisecond)
+	}
 	resend := time.After(300 * time.Millisecond)
+	answered := false
 	take := func(i int, b []byte) {
 		if len(b) == 4 && b[0] == want[0] && b[1] == want[1] && b[2] == want[2] && b[3] == want[3] {
+			if !answered && !gwDegraded {
+				// the forwarder is there and working: what it still owes arrives within a fraction of this
+				answered = true
+				deadline = time.After(1500 * time.Millisecond)
+			}
 			if !done[i] {
 				done[i] = true
 				pending--
@@ -188,11 +197,21 @@ func (w *gwWorld) sync() bool {
 			}
 			resend = time.After(300 * time.Millisecond)
 		case <-deadline:
+			if answered || gwDegraded {
+				// Acknowledgements that do not come back to the socket that asked: the forwarder under test does not
+				// answer "to the sender's address" (the barriers rely on exactly that). From here on the steps end after
+				// a fixed time instead, and what arrives where is left to the comparison with the model and to the oracle.
+				gwDegraded = true
+				return true
+			}
 			return false
 		}
 	}
 	return true
 }
+
+// set once barriers stopped coming back to their sockets (see sync)
+var gwDegraded bool
 
 // everything the sockets received, and everything handed to the pipeline, up to the last barrier
 func (w *gwWorld) collect() ([]string, []server.GatewayPacket) {
